@@ -99,3 +99,16 @@ Definition randint_contract (rint : Z -> Z -> Z) : Prop :=
 
 (* width / height arguments of longest_dimension_first: None (no wrapping) or a positive size *)
 Definition size_ok (m : option Z) : Prop := match m with None => True | Some w => 1 <= w end.
+
+(* ---- used in the statements of Props/C11.v *)
+Definition chip_sub (p q : chip) : chip := (fst p - fst q, snd p - snd q).
+
+(* c hops along one axis: the link `pos` if c >= 0, `neg` otherwise *)
+Definition axis_walk (pos neg : hexlink) (c : Z) : list hexlink :=
+  if c <? 0 then repeat neg (Z.to_nat (- c)) else repeat pos (Z.to_nat c).
+
+(* a three-axis vector is a walk of [hops v] links to the chip it denotes *)
+Definition vector_walk (v : Z * Z * Z) : list hexlink :=
+  let '(x, y, z) := v in
+  axis_walk East West x ++ axis_walk North South y ++ axis_walk SouthWest NorthEast z.
+
